@@ -114,6 +114,7 @@ ADD = {
  "C15": ("; STALE-VALUE (path-sensitive def-use staleness on go/cfg), EMIT-ALL, UNIQUE-CUTS; CONCAT-OFFSET; FLUSH-ALL (must-pass on go/cfg)", " No number/boolean computed from a variable is read after that variable was re-assigned (STALE-VALUE); a loop that writes one record per site writes one for every site, extract's documented filter being evaluated on the list it emits (EMIT-ALL); split cuts at distinct positions (UNIQUE-CUTS). Every record written is flushed before a successful return (FLUSH-ALL); extract's concatenation of multi-segment regions offsets features correctly (CONCAT-OFFSET)."),
  "C16": ("; exhaustive evaluation of the residue predicate over all 256 bytes (RESIDUE-CLASS); SHALLOW-CACHE; ORIGIN-LINE-END; INDEX-EXACT", " Both readers accept every printable residue byte and none of the layout bytes (RESIDUE-CLASS, all 256 values); decoding never writes into the shared block (SHALLOW-CACHE); the slow path tests the rest of each line as the fast path does (ORIGIN-LINE-END; repaired). Both readers compare the index columns byte for byte with the writer's text (INDEX-EXACT)."),
  "C17": ("; SLICE-REGION must-pass rule; SHALLOW-CACHE", " A slice records its window on every path, which the FASTA description is built from (SLICE-REGION)."),
+ "C18": ("; FOLD-BYTEWISE: exhaustive evaluation of the case-folding loop over all 256 byte values", " The copies Search and Match look for hits in are folded byte for byte by a loop whose map is ASCII lower-casing for every byte value, so offsets found in the copy are offsets of the sequence (FOLD-BYTEWISE; bytes.ToLower shifted them behind an invalid UTF-8 byte: repaired)."),
  "C19": ("; QUANT-ALL quantifier-shape rule on LocationWithin/LocationOverlap; VALUES-ONLY provenance rule on the matched strings; NOT-OF-OR on gts select; LESS-UNWRAP", " Within is the conjunction and Overlap the disjunction of the same test over every part (QUANT-ALL); a qualifier clause is matched against values only (VALUES-ONLY; the unnamed clause also matched qualifier names: repaired); gts select -v complements the disjunction of all selectors (NOT-OF-OR). The function that orders the parts of a multi-part location unwraps complement itself (LESS-UNWRAP)."),
 }
 
